@@ -211,10 +211,9 @@ def jobs(tier, seed=0):
             out.append({'id': f'n2|t{ti}|c{ci}', 'harness': 'vk.kernels.c06:cycles', 'params': {'tree': tree, 'structs': ch}, 'budget_s': 300})
     # three simulators, no self-pairs
     for ti, tree in enumerate(TREES3):
-        sts = structures(tree, self_pairs=False, kinds=(0, 1, 2) if q else (0, 1, 2, 3))
-        if q:
-            # rotating slice, each selected structure explored completely
-            sts = [s for i, s in enumerate(sts) if (i + seed) % 16 == 0]
+        sts = structures(tree, self_pairs=False, kinds=(0, 1, 2))
+        # rotating slice (quick 1/16, thorough 1/2), each selected structure explored completely
+        sts = [s for i, s in enumerate(sts) if (i + seed) % (16 if q else 2) == 0]
         for ci, ch in enumerate(chunks(sts, 24)):
             out.append({'id': f'n3|t{ti}|c{ci}', 'harness': 'vk.kernels.c06:cycles', 'params': {'tree': tree, 'structs': ch}, 'budget_s': 600})
     # three simulators: a weak connection inside a group and a cycle through it that passes the third simulator (which may or may
